@@ -24,17 +24,19 @@ LEAN_MODULES = ["DaskModel.Props.C32"]
 CASE_TIMEOUT_S = 20
 METHODS = ["linear", "lower", "higher", "midpoint", "nearest"]
 LEVEL_TEXT = (
-    "Proved in Lean 4 over exact rationals, for every value-sorted arrangement of the merged entries (NumPy's "
-    "argsort is not stable) with non-negative weights and for all five methods: merge_within_minmax (every output "
-    "lies between the smallest and largest merged value), q0_q100 (desired weight ≤ 0 gives the smallest, ≥ total "
-    "the largest merged value — this is the code after the two fix: commits), merge_monotone_in_q for all five "
-    "methods (nearest_mono is the delicate case); mergePercentilesWith_spec ties the executable model to these hypotheses. "
-    "That the merged extremes are the data's min/max rests on NumPy's per-chunk percentile at q=0/100 (trusted, "
-    "validated). Float interpolation rounding and nanpercentile (rechunk + NumPy per block) are validated only."
+    "Proved in Lean 4 over exact rationals, for every value-sorted arrangement of the merged entries (NumPy's argsort is not "
+    "stable) with non-negative weights and for all five methods: merge_within_minmax (every output lies between the smallest "
+    "and largest merged value), q0_q100 (desired weight ≤ 0 gives the smallest, ≥ total the largest merged value — the code "
+    "after the two fix: commits), merge_monotone_in_q for all five methods (nearest_mono is the delicate case); for the "
+    "executable model of merge_percentiles (any validated sort permutation): mergePercentilesWith_spec (its outputs are "
+    "select on sorted vals / cumulative weights whose values all come from the inputs), mergePercentilesWith_within (every "
+    "output lies between two of the merged input values; _between: within any bounds of the inputs), "
+    "mergePercentilesWith_monotone (sorted finalq ⇒ sorted outputs). That the merged extremes are the data's min/max rests on "
+    "NumPy's per-chunk percentile at q=0/100 (trusted, validated). Float interpolation rounding and nanpercentile (rechunk + "
+    "NumPy per block) are validated only."
 )
-LEVEL_NOTE = ("Trusted: Lean kernel + standard axioms; np.percentile on one chunk (values between chunk min and max, "
-              "q=0/100 exact); float64 rounding of np.interp/cumsum ('up to rounding' in the statement); t-digest path "
-              "needs crick (absent).")
+LEVEL_NOTE = ("Trusted: Lean kernel + standard axioms; np.percentile on one chunk (values between chunk min and max, q=0/100 "
+              "exact); float64 rounding of np.interp/cumsum ('up to rounding' in the statement); t-digest path needs crick (absent).")
 TECHNIQUE = "Lean 4 proof over Rat (order reasoning on sorted merged entries) + differential correspondence against merge_percentiles / da.percentile / NumPy"
 ASSUMPTIONS = ["q vectors are sorted (weights non-negative), data NaN-free",
                "np.percentile(chunk, [0, …, 100]) returns non-decreasing values with the chunk min and max at the ends"]
